@@ -15,12 +15,15 @@ Case (JSON-able):
   threads   list (per thread) of calls; call = {'tag', 'kind', 'args', 'script'}
             kind: ev (getattr(model, name)(tag)) | trig (model.trigger(name, tag)) | add_transition |
                   add_states | set_state | remove_model
-            script: {str(k): {'sub': [call…], 'raise': False | 'exc' | 'base' | 'kbd'}} — what the k-th callback
+            script: {str(k): {'snap': 'pickle' | 'deepcopy' | 'model' (optional), 'sub': [call…],
+                  'raise': False | 'exc' | 'base' | 'kbd'}} — what the k-th callback
                   invocation of this call does (re-entrant calls from inside the callback, then return / raise an
                   Exception subclass / a custom BaseException / a KeyboardInterrupt subclass)
   schedule  list of thread ids (one per scheduling decision); missing tail = run the last thread on
 """
+import copy
 import itertools
+import pickle
 import threading
 
 from . import common, threads
@@ -57,6 +60,20 @@ N_SPARE = 2
 
 class Model(object):
     pass
+
+
+CURRENT = None      # the Run being executed in this process (recorders are picklable and find it here)
+
+
+class Rec(object):
+    """recorder callback; picklable / deep-copyable (callbacks take snapshots of the machine)"""
+
+    def __init__(self, name):
+        self.name = name
+        self.__name__ = 'rec_' + name
+
+    def __call__(self, *args, **kwargs):
+        return CURRENT.callback(self.name, args)
 
 
 def enc_ctx(c):
@@ -163,10 +180,16 @@ class Run(object):
                 reg(call)
 
     def rec(self, name):
-        def f(*args, **kwargs):
-            return self.callback(name, args)
-        f.__name__ = 'rec_' + name
-        return f
+        return Rec(name)
+
+    def snapshot(self, how):
+        """a callback persists the machine in the middle of an event (the documented way: pickle / deepcopy)"""
+        if how == 'pickle':
+            pickle.dumps(self.machine)
+        elif how == 'deepcopy':
+            copy.deepcopy(self.machine)
+        else:
+            copy.deepcopy(self.models[0])       # a model references the machine through its trigger partials
 
     # ---- worker side -------------------------------------------------------------------------
     def callback(self, name, args):
@@ -181,6 +204,16 @@ class Run(object):
         c.emit((2, t, a, 0))
         self.cbtrace.setdefault(tag, []).append([name, [getattr(m, 'state', None) for m in self.models]])
         sc = self.scripts.get(tag, {}).get(str(k))
+        if sc and sc.get('snap'):
+            t = c.point()
+            try:
+                self.snapshot(sc['snap'])
+                self.cbtrace[tag].append(['snapshot', sc['snap'], 'ok'])
+            except (threads.Abort, common.MachineryError):
+                raise
+            except BaseException as e:
+                self.cbtrace[tag].append(['snapshot', sc['snap'], type(e).__name__])
+            c.emit((7, t, 0, 0))
         if sc:
             for sub in sc.get('sub', []):
                 self.do_call(sub)
@@ -258,7 +291,9 @@ class Run(object):
 
     # ---- run -----------------------------------------------------------------------------------
     def run(self, policy, watchdog=10.0):
+        global CURRENT
         threads.install()
+        CURRENT = self
         try:
             self.build()
             n = len(self.case['threads'])
@@ -291,7 +326,7 @@ class Run(object):
                       'triggers': sorted(k for k in ev)}
         # probe from another thread (this one): everything released
         held = sorted('%s%d' % k for k, c in self.ctxs.items() if isinstance(c, SLock) and c.owner is not None)
-        cur = m._ident.__dict__.get('_cur', getattr(m._ident, 'current', 0))
+        cur = m._ident.__dict__.get('current', 0)
         self.released = {'locks_held': held, 'current': 0 if cur == 0 else 1}
 
     @property
@@ -422,6 +457,8 @@ def thread_progs(events, n):
             progs[t].append([3, e[2], 0, e[3]] + list(e[4:]))
         elif k == 6:
             progs[t].append([4, e[2], 0])
+        elif k == 7:
+            progs[t].append([5, 0, 0])
     return progs
 
 
